@@ -4,7 +4,7 @@
    named, and its live values are live values from before or updates of the request. *)
 From Coq Require Import List NArith Bool Lia.
 From OC Require Import Base.Bytes Model.Merge Model.CfgStore
-     Proofs.MergeProofs Proofs.PathProofs Proofs.PruneProofs Proofs.StoreProofs Proofs.CommitProofs Proofs.StoreFullProofs.
+     Proofs.MergeProofs Proofs.TextPathProofs Proofs.PruneProofs Proofs.StoreProofs Proofs.CommitProofs Proofs.StoreFullProofs.
 Import ListNotations.
 Open Scope N_scope.
 
